@@ -209,7 +209,8 @@ def run(ctx):
         reads = keys.reads_of(ka, P, ["propagate"], "ham_data")
         w = keys.writes_of(ka, P, "_build_propagation_intermediates", "ham_data")
         inputs = input_ham_keys(ctx)
-        missing = sorted(k for k in reads if k not in w and k not in inputs)
+        tk = keys.trial_built_keys(ka)     # what the step reads through the trial is the trial builder's business (C02/C03)
+        missing = sorted(k for k in reads if k not in w and k not in inputs and k not in tk)
         ctx.ob("KEYS-1", f"{P}: ham_data keys read by the step are built", not missing,
                f"read but never written: {missing}" if missing else
                f"reads {sorted(reads)}; builder writes {sorted(w)}", base)
